@@ -178,7 +178,7 @@ def run_property(pid, rules_mod, repo="/repo", tier="quick", configs=None, seed=
     Returns exit code."""
     t0 = time.time()
     meta = rules_mod.META
-    configs = configs or [("default", ())]
+    configs = configs or getattr(rules_mod, "QUICK_CONFIGS", None) or [("default", ())]
     all_results = []
     fn_seen, inst_seen, paths = set(), 0, 0
     status_broken = None
